@@ -80,7 +80,7 @@ PROVED = {
  'C05': ('P: translation validation for ALL widths of the per-net Verilog emitters - the assign statement printed by the real loop body of _to_verilog_combinational (executed from the real source on a model net with symbolic widths) is parsed back and read under the IEEE 1364-2001 expression width rules, and equals the documented value of the primitive (w ~ & | ^ + - * < > = x, concat of 1..3 pieces, select shapes) for every operand value, discharged by z3; then ', 'per-net emitters proved for all widths (P); '),
  'C15': ('P: contracts on Simulation.step (input validation: PyrtlError iff a value is outside [0, 2**bitwidth), a non-Input is driven or an Input is missing; the trace receives exactly the final value map), FastSimulation.step (PyrtlError iff a provided value is negative or >= 2**bitwidth, by name or by wire; otherwise the compiled step function and the trace receive exactly the provided values), SimulationTrace.add_step / add_fast_step (any number of traced names, loop invariant over ghost length/content arrays: every list grows by exactly one entry = the value of its wire, earlier entries unchanged, PyrtlError iff nothing is traced), Simulation.inspect, and the lemma over those contracts inspect(n) == trace[n][-1] / len grows by one per step, discharged by z3; then ', 'Simulation observation channel proved (P); other simulators, printers, step_multiple, assertions bounded (B); '),
  'C17': ('P: contract on TimingAnalysis._generate_timing_map with a caller-supplied integer delay table over a symbolic well-formed netlist of any size: sources are timed 0 and every timed net satisfies T[dest] == max(T[arg]) + delay (the longest-path recurrence; loop invariant over ghost netlist functions, `max` of a generator over a symbolic argument list), discharged by z3; then ', 'timing-map recurrence proved for integer tables (P); float default table, critical paths, paths, fanout bounded (B); '),
- 'C20': ('P: contracts on the ordering helpers every exporter sorts its emitted lists with - importexport._natural_sort_key (the key is a pair whose last component is the name itself; one chunk per piece of the split, digit runs as numbers), _name_sorted and _net_sorted (the result is sorted(argument, key=K), K of an item ends with its mapped name; _natural_sort_key applied by contract at the call) and the lemma over them (different names have different keys; the least element under a strict total order is unique, so the ascending arrangement does not depend on the iteration order of the set), discharged by z3; then ',
+ 'C20': ('P: contracts on the ordering helpers every exporter sorts its emitted lists with - importexport._natural_sort_key and simulation._trace_sort_key (the key determines the name: it is the name or holds it as a component), _name_sorted and _net_sorted (the result is sorted(argument, key=K), K of an item ends with its mapped name; _natural_sort_key applied by contract at the call) and the lemma over them (different names have different keys; the least element under a strict total order is unique, so the ascending arrangement does not depend on the iteration order of the set), discharged by z3; then ',
          'ordering helpers proved tie-free on names (P); every exported text, trace and read-only-ness bounded across processes (B)'),
  'C19': ('P: contract on the real Matrix constructor from a WireVector (and the bits setter it runs), per shape 1x1..3x3, 1x4, 4x1, for ALL element widths, max_bits and values over the builder model: PyrtlError iff bits <= 0 or the clipped width <= 0 or len(value) != width*rows*columns; element (i,j) has the element width and carries (value >> (((rows-1-i)*columns + (columns-1-j))*width)) mod 2**width (row-major, first element most significant); rows/columns/bits/max_bits recorded; and on the bits setter alone (elements of arbitrary widths: PyrtlError iff b <= 0, every element keeps exactly its low min(b, len) bits) and on Matrix.to_wirevector (the inverse layout, shapes up to 2x2 / 1x3) and Matrix.transpose (element (i,j) carries source (j,i)) - slicing, concat and as_wires through their own contracts, discharged by z3; then ',
          'WireVector -> Matrix bit layout proved for all element widths/values per shape (P); every operation bounded in shapes/widths, complete in values (PB)'),
